@@ -387,7 +387,7 @@ class PathRecord:
             neg = z3.Not(cond)
         if is_nonlinear(neg) or any(is_nonlinear(c) for c in self.ctx.relevant([neg])):
             # non-linear obligation: try the linear-form abstraction first (sound for unsat)
-            if self._abstract_unsat(env, neg):
+            if self._abstract_unsat(env, neg, timeout=min(30000, int(self.obl_timeout))):
                 self.discharged += 1
                 self.via_abstraction += 1
                 return
